@@ -111,7 +111,18 @@ def gen_history(rng, tier):
                 d = G.gen_force_opts(rng, labelsA, span)
                 ops += [("options", {k: d[k] for k in rng.sample(sorted(d), min(len(d), rng.randint(1, 2)))})]
             ops += [("compute",)]
-        elif c < 0.95:
+        elif c < 0.93 and not any(op[0] == "second-engine" for op in ops):
+            # a SECOND engine, alive at the same time, configured differently (and given its own labels) between the configuration and
+            # the layout of the first one: engines share nothing
+            o2 = G.gen_force_opts(rng, labelsB, spanB)
+            ops += [("second-engine", o2), ("nodes", labelsB)]
+            if rng.random() < 0.5:
+                ops += [("compute",)]
+            if rng.random() < 0.4:
+                d = G.gen_force_opts(rng, labelsB, spanB)
+                ops += [("options", {k: d[k] for k in rng.sample(sorted(d), min(len(d), rng.randint(1, 2)))})]
+            ops += [("switch",), ("compute",)]
+        elif c < 0.96:
             # the same node objects registered again on the same engine, possibly re-configured before the next layout
             ops += [("renodes",)]
             if rng.random() < 0.6:
@@ -148,7 +159,7 @@ def run_c06(tier, seed, rep, only_prop=False, scale=1):
             lines.append(fl); metas.append({"kind": "history", "ops": ops, "mode": mode, "compute_no": j, "acc": acc, "labels": labs})
         # the same history on the STATEFUL transliteration (Model/EngineT.lean): node objects with their links, positions and layer
         # numbers, several engines sharing them — the observation after every compute must be equal in exact arithmetic
-        if k % 2 == 0:
+        if k % 2 == 0 and not any(op[0] in ("second-engine", "switch") for op in ops):
             try:
                 lines.append(I.run_ehist(ops)); metas.append({"kind": "ehist", "ops": ops, "mode": "exact"})
             except RecursionError:
